@@ -113,6 +113,10 @@ func jobsFor(prop, tier string) []*Job {
 				Solvers: []string{"cvc5", "z3"},
 				Bounds:  fmt.Sprintf("recovery duration %d ns, counters (allowed,denied) in [0,%d]^2, elapsed time symbolic in [0,duration]; IEEE-754 float64 semantics exact", d, A)})
 		}
+		for part := 0; part < 16; part++ {
+			add(&Job{Name: fmt.Sprintf("O3-recovery-history/k=4,depth=1,part=%d", part), Pkg: "cbreaker", Harness: "VerifC05History", Params: p("k", 4, "depth", 1, "part", part, "parts", 16),
+				Bounds: "history harness of C05 with 4 requests: every recovery starts its ramp afresh (start instant, duration, one decision so far), the first request after the recovery period finds standby, a matching condition during recovery trips again"})
+		}
 		B := 3
 		if thorough {
 			B = 6
